@@ -32,9 +32,21 @@ Checks ==
   /\ BitLengthMeans(x) /\ CompareMeans(x, y) /\ Hi64Means(x)
   /\ (y = <<>> => \A e \in 0..MaxExp : LET out == Pow(x, e) IN IsVec(out.v) /\ PowMeans(x, e, out))
 
+\* the hi64 building blocks for both limb widths, on limb values that exercise every shift class
+HiVals32 == {<<1>>, <<2>>, <<5>>, Pow2(15), Pow2(16), Sub(Pow2(31), <<1>>), Pow2(31), Add(Pow2(31), <<1>>), Sub(Pow2(32), <<1>>)}
+HiVals64 == {<<1>>, <<3>>, Pow2(31), Pow2(32), Sub(Pow2(63), <<1>>), Pow2(63), Add(Pow2(63), <<1>>), Sub(Pow2(64), <<1>>)}
+HiBlocks ==
+  /\ \A a \in HiVals32 : HiMeans(a, U32Hi1(a))
+  /\ \A a \in HiVals32, b \in HiVals32 \cup {<<>>} : HiMeans(Add(Shl(a, 32), b), U32Hi2(a, b))
+  /\ \A a \in HiVals32, b \in HiVals32 \cup {<<>>}, c \in {<<>>, <<1>>, Pow2(31), Sub(Pow2(32), <<1>>)} :
+        HiMeans(Add(Shl(a, 64), Add(Shl(b, 32), c)), U32Hi3(a, b, c))
+  /\ \A a \in HiVals64 : HiMeans(a, U64Hi1(a))
+  /\ \A a \in HiVals64, b \in HiVals64 \cup {<<>>} : HiMeans(Add(Shl(a, 64), b), U64Hi2(a, b))
+
 Init == x \in AllVecs /\ y \in UNION {VecsOfLen(n) : n \in 0..MaxYLen} /\ phase = "new"
 Next == phase = "new" /\ phase' = "done" /\ UNCHANGED <<x, y>>
         /\ Assert(Checks, <<"limb-level algorithm differs from arithmetic", x, y>>)
+        /\ Assert(x # <<>> \/ y # <<>> \/ HiBlocks, "hi64 building blocks differ from their meaning")
 Spec == Init /\ [][Next]_vars
 TypeOK == phase \in {"new", "done"}
 =============================================================================
